@@ -649,3 +649,10 @@ def r13_9(ctx):
     from .c07 import r07_7
 
     r07_7(ctx)
+
+
+@rule("R13.10", "C13", "the attributes of a part are its own whatever way the previous compilation ended: every entry point resets the transformer (flags and written predicates) on every exit, also an exceptional one", min_instances=2)
+def r13_10(ctx):
+    from .c14 import r14_2
+
+    r14_2(ctx)
